@@ -12,13 +12,7 @@ import os
 import vlib
 
 
-def build_goose():
-    dst = os.path.join(vlib.BUILD, "bin", "goose")
-    os.makedirs(os.path.dirname(dst), exist_ok=True)
-    rc, o, e = vlib.sh(["go", "build", "-o", dst, "./cmd/goose"], cwd=vlib.REPO, timeout=900)
-    if rc != 0:
-        raise vlib.BuildError("go build ./cmd/goose failed:\n" + o + e)
-    return dst
+build_goose = vlib.build_goose
 
 
 def run(ctx):
